@@ -54,6 +54,8 @@ def strategy_(draw, tier):
     point = draw(st.integers(0, case["batch"]))
     case["fault"] = [kind, w, point, draw(st.sampled_from([-9, 1, 137]))]
     case["kind"] = "sim"
+    # the exit status must reflect the death whatever the output goes to (-o FILE or standard output)
+    case["via"] = draw(st.sampled_from(["api", "api", "cli", "cli_stdout"]))
     return case
 
 
@@ -85,7 +87,7 @@ def run_case(case):
     fault = tuple(case["fault"])
     with core.workdir() as d:
         plat = fakemp.Platform(fakemp.Chooser(case["choices"]), fault=fault)
-        res, text = rc.run_realign(case, d, platform=plat, sub="sim.gaf")
+        res, text = rc.run_realign(case, d, platform=plat, sub="sim.gaf", via=case.get("via", "api"))
     if not plat.fault_fired:
         return core.Result(False, ["fault_not_fired:" + fault[0]])
     what = "worker %d dies (%s at %d, status %d), cores=%d batch=%d schedule=%s" % (
@@ -99,7 +101,7 @@ def run_case(case):
                what, nout, len(case["gaf"]))
     if res[0] == "exit":
         core.check(res[1] not in (0, None), "%s: realign exited with status %r", what, res[1])
-    cl = ["kind:" + fault[0], "status:%d" % fault[3], "workers=%d" % min(len(plat.procs), 4), "ended:" + res[0]]
+    cl = ["via:" + case.get("via", "api"), "kind:" + fault[0], "status:%d" % fault[3], "workers=%d" % min(len(plat.procs), 4), "ended:" + res[0]]
     p = plat.procs[fault[1]]
     between = 0 < p.delivered < len(p.args[0])
     if between:
